@@ -190,14 +190,18 @@ fn status_ret(status: &Status) -> (String, Value) {
 }
 
 /// Executes one call for client `c`, recording `inv`, then `ret` (or `hang`).
-pub async fn exec(world: Arc<World>, c: usize, spec: CallSpec) {
+pub async fn exec(world: Arc<World>, c: usize, spec: CallSpec) -> Option<(String, Value)> {
     let fut = exec_inner(Arc::clone(&world), c, spec);
-    if tokio::time::timeout(HANG_LIMIT, fut).await.is_err() {
-        world.ev("hang", json!({"c": c}));
+    match tokio::time::timeout(HANG_LIMIT, fut).await {
+        Ok(r) => Some(r),
+        Err(_) => {
+            world.ev("hang", json!({"c": c}));
+            None
+        }
     }
 }
 
-async fn exec_inner(world: Arc<World>, c: usize, spec: CallSpec) {
+async fn exec_inner(world: Arc<World>, c: usize, spec: CallSpec) -> (String, Value) {
     let mut publisher = world.publisher.clone();
     let mut subscriber = world.subscriber.clone();
     let (code, body): (String, Value) = match spec {
@@ -372,6 +376,7 @@ async fn exec_inner(world: Arc<World>, c: usize, spec: CallSpec) {
         }
     };
     world.ev("ret", json!({"c": c, "code": code, "body": body}));
+    (code, body)
 }
 
 /// An open StreamingPull as seen by the harness.
